@@ -5,6 +5,8 @@ import (
 	"math/big"
 	"testing"
 
+	lk "github.com/lianxiangcloud/linkchain/libs/cryptonote/types"
+	"github.com/lianxiangcloud/linkchain/libs/cryptonote/xcrypto"
 	"github.com/lianxiangcloud/linkchain/types"
 
 	"verif/sim/kernel"
@@ -61,5 +63,40 @@ func TestWriteLog(t *testing.T) {
 	res := kernel.Execute(t, rig, kernel.Quick, kernel.NewTape(1), nil)
 	if res.Harness != "" {
 		t.Fatal(res.Harness)
+	}
+}
+
+func TestKeyImageClass(t *testing.T) {
+	prime, cleared, err := KeyImageClass(torsion2)
+	var id [32]byte
+	id[0] = 1
+	if err != nil || prime || cleared != id {
+		t.Fatalf("order-2 point: prime=%v cleared=%x err=%v", prime, cleared, err)
+	}
+	prime, cleared, err = KeyImageClass(torsion4)
+	if err != nil || prime || cleared != id {
+		t.Fatalf("order-4 point: prime=%v cleared=%x err=%v", prime, cleared, err)
+	}
+	var one lk.Key
+	one[0] = 1
+	g := xcrypto.ScalarmultBase(one)
+	prime, c1, err := KeyImageClass(g)
+	if err != nil || !prime {
+		t.Fatalf("base point: prime=%v err=%v", prime, err)
+	}
+	tw, err := xcrypto.AddKeys(g, torsion2)
+	if err != nil {
+		t.Fatal(err)
+	}
+	prime, c2, err := KeyImageClass(tw)
+	if err != nil || prime || c1 != c2 {
+		t.Fatalf("G+T2: prime=%v same cleared=%v err=%v", prime, c1 == c2, err)
+	}
+	tw4, err := xcrypto.AddKeys(g, torsion4)
+	if err != nil {
+		t.Fatal(err)
+	}
+	if prime, c3, err := KeyImageClass(tw4); err != nil || prime || c3 != c1 {
+		t.Fatalf("G+T4: prime=%v err=%v", prime, err)
 	}
 }
